@@ -6,6 +6,7 @@ COQ_IMPORTS = "Model.Plain Check.C12check"
 CASE_TYPE = "c12_case"
 VERDICT = "c12_verdict"
 EXPECTED = None
+CONFIRM = True          # live sockets with timing: a failure must repeat when the case is run again on its own
 SHARD = 80
 RULE = ("plain: input.NewPlain(d).Handle(r) with a scripted io.Reader — every cut position of short streams, random cuts, one-byte reads, empty "
         "reads (also 100+ in a row), data together with EOF and data together with a timeout error; lines of 0, 1, 65534-65537 bytes; CRLF, lone "
@@ -85,6 +86,13 @@ def gen(rng, tier):
         cases.append({"kind": "plain", "script": [{"t": "data", "b": b"a 1 2\nb".hex()}] + [{"t": "data", "b": ""}] * k + [{"t": "data", "b": b" 3 4\n".hex()}, {"t": "eof"}]})
     for _ in range(60 if tier == "quick" else 600):
         cases.append({"kind": "udp", "body": gen_stream(rng).hex()})
+    # a real TCP listener with a read timeout T, a sender that pauses inside lines for less than T (after a burst, and after a quiet spell)
+    T = 2000
+    for delays in ([0, 800, 1500], [0, 100, 200, 1500]):
+        parts = [b"verif.tcp.aaa 1 1\nverif.tcp.bb", b"b 2 2\nverif.tc", b"p.ccc 3 3\nverif.tcp.d", b"dd 4 4\n"][:len(delays)]
+        if len(parts) == 3:
+            parts[2] = b"p.ccc 3 3\n"
+        cases.append({"kind": "tcp_live", "timeout_ms": T, "segs": [{"delay_ms": dl, "b": p.hex()} for dl, p in zip(delays, parts)]})
     # datagrams of the largest sizes an address family carries, through a real socket and consumeUdp's receive buffer
     for host, size in [("127.0.0.1", 65507), ("[::1]", 65507), ("[::1]", 65508), ("[::1]", 65527), ("127.0.0.1", rng.randrange(1, 3000))]:
         cases.append({"kind": "udp_live", "host": host, "body": sized_datagram(rng, size).hex()})
@@ -122,6 +130,9 @@ def to_coq(case, obs):
             else:
                 sc.append("REof" if st["t"] == "eof" else "RErr")
         return "KPlain %s %s %s" % (clist(sc, "rres"), lines, cN(ST[obs["status"]]))
+    if case["kind"] == "tcp_live":
+        sc = ["RData %s" % cbytes(bytes.fromhex(sg["b"])) for sg in case["segs"]] + ["REof"]
+        return "KPlain %s %s %s" % (clist(sc, "rres"), lines, cN(ST["ok"]))
     if case["kind"] == "udp_live":
         if obs["status"] == "skip":          # no such loopback address / datagram size in this sandbox: nothing observed
             return "KUdp %s %s" % (cbytes(b""), clist([], "bytes"))
